@@ -141,7 +141,7 @@ def expected_columns(out, rows, unit_override=None):
         cols["mass"] = (cols["density"][0] * cols["dx"][0] ** 3, M2.dims_of(g=1), 2e-3)
     if all(f"B_left.{c}" in cols and f"B_right.{c}" in cols for c in "xyz"[:ndim]) and ndim > 1:
         for c in "xyz"[:ndim]:
-            cols[f"B_field.{c}"] = (0.5 * (cols[f"B_left.{c}"][0] + cols[f"B_right.{c}"][0]), M2.dims_of(G=1), 0.0)
+            cols[f"B_field.{c}"] = (0.5 * (cols[f"B_left.{c}"][0] + cols[f"B_right.{c}"][0]), M2.GAUSS, 0.0)
     return cols
 
 
